@@ -46,6 +46,8 @@ pub fn run(ctx: &mut Ctx) {
     lap(ctx, "roundtrips");
     foreign(ctx);
     lap(ctx, "foreign");
+    failing_sinks(ctx);
+    lap(ctx, "failing_sinks");
     crate::c09_deltas::delta_chain(ctx);
     lap(ctx, "delta_chain");
     crate::c09_deltas::origins(ctx);
@@ -493,6 +495,237 @@ fn short_sink_check(
             }
         }
         Err(_) => ctx.obs("short_sink_write_error", 1),
+    }
+}
+
+//------------ sinks that start refusing ---------------------------------------
+
+/// An `io::Write` with room for exactly `room` bytes: it takes at most
+/// `per_call` bytes per call and, once full, answers every further `write`
+/// with an error (for good). At the edge it either takes the part that still
+/// fits (`partial_at_edge`) or refuses the whole call.
+struct FailingSink {
+    out: Vec<u8>,
+    room: usize,
+    per_call: usize,
+    partial_at_edge: bool,
+    refused: u64,
+}
+
+impl std::io::Write for FailingSink {
+    fn write(&mut self, buf: &[u8]) -> std::io::Result<usize> {
+        if buf.is_empty() {
+            return Ok(0);
+        }
+        let left = self.room.saturating_sub(self.out.len());
+        let mut n = buf.len().min(self.per_call);
+        if left == 0 || (n > left && !self.partial_at_edge) {
+            self.refused += 1;
+            return Err(std::io::Error::other("sink is full"));
+        }
+        n = n.min(left);
+        self.out.extend_from_slice(&buf[..n]);
+        Ok(n)
+    }
+    fn flush(&mut self) -> std::io::Result<()> {
+        // no second chance to notice the failure
+        Ok(())
+    }
+}
+
+/// `write` is run against a sink with room for `room` bytes, for every `room`
+/// in `rooms` and several ways of taking bytes. `xml` is what the same writer
+/// produced into a `Vec` (and what was parsed back by the round-trip check).
+/// Law: success may only be reported if the complete file arrived; whenever
+/// the sink holds less (or anything else), the writer must have returned the
+/// error. What it does when everything fitted is left open.
+fn failing_sink_sweep(
+    ctx: &mut Ctx,
+    kind: &str,
+    shape: &str,
+    xml: &[u8],
+    rooms: &[usize],
+    variants: &[(usize, bool)],
+    write: &dyn Fn(&mut FailingSink) -> Result<(), std::io::Error>,
+) {
+    let mut n = 0u64;
+    let (mut err_incomplete, mut ok_complete, mut err_complete) = (0u64, 0u64, 0u64);
+    let mut reported = false;
+    for &room in rooms {
+        for &(per_call, partial_at_edge) in variants {
+            let mut sink = FailingSink { out: Vec::new(), room, per_call, partial_at_edge, refused: 0 };
+            let res = ctx.no_panic(
+                &format!("write_xml-failing-sink:{kind}"),
+                || json!({"kind": kind, "room": room, "per_call": per_call, "partial_at_edge": partial_at_edge, "document_len": xml.len()}),
+                || write(&mut sink),
+            );
+            n += 1;
+            let complete = sink.out == xml;
+            match res {
+                None => {}
+                Some(Ok(())) if complete => ok_complete += 1,
+                Some(Ok(())) => {
+                    if !reported {
+                        reported = true;
+                        let is_prefix = xml.starts_with(&sink.out);
+                        let region = if !is_prefix {
+                            "different-bytes"
+                        } else if xml.len() - sink.out.len() <= 40 {
+                            "closing-tags"
+                        } else {
+                            "body"
+                        };
+                        let per_call_text = if per_call == usize::MAX { "unlimited".to_string() } else { per_call.to_string() };
+                        ctx.violation(
+                            &format!("C09:write:{kind}:ok-although-sink-failed:{region}"),
+                            &format!(
+                                "write_xml returned Ok(()) although the sink had room for only {room} of the {} bytes of the file and refused {} write(s): {} bytes arrived, the file on the other side is truncated",
+                                xml.len(), sink.refused, sink.out.len()
+                            ),
+                            json!({"kind": kind, "shape": shape, "room": room, "document_len": xml.len(), "arrived": sink.out.len(), "writes_refused": sink.refused,
+                                   "per_call": per_call_text, "partial_at_edge": partial_at_edge,
+                                   "document": String::from_utf8_lossy(&xml[..xml.len().min(3000)]),
+                                   "arrived_tail": String::from_utf8_lossy(&sink.out[sink.out.len().saturating_sub(200)..])}),
+                        );
+                    }
+                }
+                Some(Err(_)) if complete => err_complete += 1,
+                Some(Err(_)) => err_incomplete += 1,
+            }
+        }
+    }
+    ctx.evals(n);
+    ctx.obs("failing_sink_writes", n);
+    ctx.obs("failing_sink_error_reported_for_incomplete_file", err_incomplete);
+    ctx.obs("failing_sink_ok_with_complete_file", ok_complete);
+    if err_complete > 0 {
+        // left open by the statement
+        ctx.obs("failing_sink_error_although_complete_file", err_complete);
+    }
+    ctx.obs(&format!("failing_sink_documents_{kind}"), 1);
+    ctx.sig(&format!("failing-sink {kind} {shape} len={}", g::count_class(xml.len() / 100)));
+}
+
+/// A small document written through the crate's XML writer directly (every
+/// construct the RRDP writers use: nested and empty elements, attributes with
+/// escapes, PCDATA, raw text, Base64), ending in `Writer::done`.
+fn encode_tree(w: &mut impl std::io::Write, shape: u64, data: &[u8]) -> Result<(), std::io::Error> {
+    let mut writer = rpki::xml::encode::Writer::new(w);
+    writer
+        .element("root".into())?
+        .attr("a", "x&y<z>\"'")?
+        .attr("n", &shape)?
+        .content(|c| {
+            if shape & 1 != 0 {
+                c.element("empty".into())?;
+            }
+            if shape & 2 != 0 {
+                c.element("t".into())?.attr("k", "v")?.content(|c| c.pcdata("some <text> & more"))?;
+            }
+            if shape & 4 != 0 {
+                c.element("b".into())?.content(|c| c.base64(data))?;
+            }
+            if shape & 8 != 0 {
+                c.element("n".into())?.content(|c| {
+                    c.element("m".into())?.content(|c| {
+                        c.element("leaf".into())?.attr("uri", "rsync://h/m/a")?;
+                        Ok(())
+                    })?;
+                    Ok(())
+                })?;
+            }
+            if shape & 16 != 0 {
+                c.element("r".into())?.content(|c| c.raw("raw text"))?;
+            }
+            Ok(())
+        })?;
+    writer.done()
+}
+
+/// Which `room` values are swept for a document of `len` bytes.
+fn rooms_for(ctx: &Ctx, len: usize) -> Vec<usize> {
+    if ctx.stage == Stage::Miri {
+        // every 128th cut, and every cut inside the closing sequence
+        return (0..=len).filter(|r| r % 128 == 0 || r + 26 >= len).collect();
+    }
+    if len <= 4_000 {
+        return (0..=len + 1).collect();
+    }
+    (0..=len + 1).filter(|r| *r < 600 || r + 600 >= len || r % 61 == 0).collect()
+}
+
+/// Every RRDP writer against sinks that start refusing at every byte offset
+/// of the file.
+fn failing_sinks(ctx: &mut Ctx) {
+    let docs = crate::c09_io::budget(ctx, (12 * 12, 16 * 40), 24, (1, 2));
+    let mut rng = ctx.rng("failing-sinks");
+    let miri = ctx.stage == Stage::Miri;
+    let all_variants: [(usize, bool); 5] = [(usize::MAX, false), (usize::MAX, true), (1, true), (7, true), (7, false)];
+    for i in 0..docs {
+        let plan = SizePlan { max_elements: 3, data_cap: if i % 7 == 6 { 400 } else { 70 }, long_uris: false };
+        // the number of children cycles through 0..=3 (an empty root element is closed differently)
+        let want = (i % 4) as usize;
+        let variants: Vec<(usize, bool)> = if miri {
+            vec![all_variants[(i % 2) as usize]]
+        } else {
+            vec![all_variants[0], all_variants[1], all_variants[2 + (i % 3) as usize]]
+        };
+        // the interpreter stage affords one file kind per shard
+        let pick = |k: u64| !miri || (ctx.shard + i) % 4 == k;
+        let (do_notif, do_snap, do_delta, do_tree) = (pick(0), pick(1), pick(2), pick(3));
+        let want = if miri { 1 + (ctx.seed % 2) as usize } else { want };
+        // notification
+        let mut m = g::gen_notif(&mut rng, &plan);
+        m.deltas.truncate(want);
+        if !do_notif {
+        } else if let Some(v) = l::lib_notif(&m) {
+            let mut xml = Vec::new();
+            if v.write_xml(&mut xml).is_ok() && NotificationFile::parse(&xml[..]).map(|p| p == v).unwrap_or(false) {
+                let rooms = rooms_for(ctx, xml.len());
+                failing_sink_sweep(ctx, "notification", &format!("deltas={}", m.deltas.len()), &xml, &rooms, &variants, &|w| v.write_xml(w));
+            }
+        }
+        // snapshot
+        let mut m = g::gen_snap(&mut rng, &plan);
+        m.elements.truncate(want);
+        if !do_snap {
+        } else if let Some(v) = l::lib_snap(&m) {
+            let mut xml = Vec::new();
+            if v.write_xml(&mut xml).is_ok() && Snapshot::parse(&xml[..]).map(|p| p == v).unwrap_or(false) {
+                let rooms = rooms_for(ctx, xml.len());
+                let last = match m.elements.last() {
+                    None => "none",
+                    Some((_, d)) if d.is_empty() => "publish-empty",
+                    Some(_) => "publish",
+                };
+                failing_sink_sweep(ctx, "snapshot", &format!("elements={} last={last}", m.elements.len()), &xml, &rooms, &variants, &|w| v.write_xml(w));
+            }
+        }
+        // delta
+        let mut m = g::gen_delta(&mut rng, &plan);
+        m.elements.truncate(want);
+        if !do_delta {
+        } else if let Some(v) = l::lib_delta(&m) {
+            let mut xml = Vec::new();
+            if v.write_xml(&mut xml).is_ok() && Delta::parse(&xml[..]).map(|p| p == v).unwrap_or(false) {
+                let rooms = rooms_for(ctx, xml.len());
+                let last = match m.elements.last() {
+                    None => "none",
+                    Some(MEl::Publish(..)) => "publish",
+                    Some(MEl::Update(..)) => "update",
+                    Some(MEl::Withdraw(..)) => "withdraw",
+                };
+                failing_sink_sweep(ctx, "delta", &format!("elements={} last={last}", m.elements.len()), &xml, &rooms, &variants, &|w| v.write_xml(w));
+            }
+        }
+        // the XML writer itself
+        let shape = if i < 32 { i } else { rng.below(32) };
+        let data = rng.bytes((i % 5) as usize * 7);
+        let mut xml = Vec::new();
+        if do_tree && encode_tree(&mut xml, shape, &data).is_ok() {
+            let rooms = rooms_for(ctx, xml.len());
+            failing_sink_sweep(ctx, "xml-writer", &format!("constructs={shape:05b}"), &xml, &rooms, &variants, &|w| encode_tree(w, shape, &data));
+        }
     }
 }
 
